@@ -45,7 +45,7 @@ def doc_case(case):
 
 # values for a tag which does not exist yet (default datatype of the value): (datatype taken, value, valid)
 NEWTAG = [("Z", "hello", True), ("Z", "a\tb", False), ("Z", "x\ny", False), ("Z", "caf\u00e9", False), ("i", 5, True), ("i", True, False), ("f", 1.5, True), ("f", float("inf"), False),
-          ("f", float("nan"), False), ("B", [1, 2], True), ("B", [True, False], False), ("B", [float("inf")], False), ("B", [2**40], False), ("J", {"a": [1]}, True), ("J", ["caf\u00e9"], True),
+          ("f", float("nan"), False), ("B", [1, 2], True), ("J", [True, False], True), ("B", [float("inf")], False), ("B", [2**40], False), ("J", {"a": [1]}, True), ("J", ["caf\u00e9"], True),
           ("J", {"a": float("nan")}, False), ("J", [{1, 2}], False), ("J", {1: "a"}, False), ("H", gfapy.ByteArray([1, 2]), True), ("B", gfapy.NumericArray([1, 2.5]), False)]
 
 
